@@ -1,11 +1,12 @@
-import Flurry.Lemmas.BinXMem
-/-! # Proto/BinX: the thread-level invariants are preserved (C01, C10)
+import Flurry.Lemmas.BinXCMem
+/-! # Proto/BinXC: the thread-level invariants are preserved (C01, C04)
 
 Generic preservation lemmas for `TInv` (times and operations), `PInv` (program counters vs. phase),
 `LInv` (locks) and `WInv` (walks), parameterised by the memory effect `MemStep` of the transition and
 by the obligations of the stepping thread itself. -/
-namespace Flurry.Proto.BinX
+namespace Flurry.Proto.BinXC
 open Flurry.Lin
+open Flurry.Proto.BinX (Ghost Phase CellId CR Active MemStep get_set get_set_self get_set_ne)
 
 /-! ## `TInv` -/
 
@@ -98,10 +99,11 @@ theorem tinv_invoke {s s' : State} {t : Nat} {l l' : Local} {k : Nat} {op : KOp}
   · rw [hhist]; exact T.uniqHH
 
 /-- a call completes -/
-theorem tinv_finish {s s' : State} {t : Nat} {l l' : Local} {p : Pending} {res : KRes} (T : TInv s)
+theorem tinv_finish {s s' : State} {t : Nat} {l l' : Local} {p : Pending} {res : KRes} {ko : Option Nat} {op : KOp}
+    (T : TInv s)
     (hl : s.threads[t]? = some l) (hp : l.call = some p)
     (hthr : s'.threads = s.threads.set t l') (hnow : s'.now = s.now + 1)
-    (hhist : s'.hist = (p.key, ⟨t, p.op, res, p.inv, s.now + 1⟩) :: s.hist) (hcall : l'.call = none)
+    (hhist : s'.hist = (ko, ⟨t, op, res, p.inv, s.now + 1⟩) :: s.hist) (hcall : l'.call = none)
     (hop : ¬ isOp l'.pc) : TInv s' := by
   have key : ∀ (t1 : Nat) (l1 : Local) (p1 : Pending), s'.threads[t1]? = some l1 → l1.call = some p1 →
       t1 ≠ t ∧ s.threads[t1]? = some l1 := by
@@ -146,24 +148,11 @@ theorem tinv_finish {s s' : State} {t : Nat} {l l' : Local} {p : Pending} {res :
 
 /-! ## `PInv` -/
 
-theorem MemStep.post_mono {s s' : State} {v : Option (CellId × Nat)} {g g' : Ghost} (m : MemStep s s' v g g')
-    (h : g.ph = .post) : g'.ph = .post := by
-  cases m with
-  | build h' hp => rw [hp] at h; cases h
-  | casMoved => rfl
-  | moved => rfl
-  | same => exact h
-  | lock => exact h
-  | upd => exact h
-  | clear => exact h
-  | storeNew => exact h
-  | commit => exact h
-
-theorem PcPh.of_not_isT {s s' : State} {g g' : Ghost} {pc : Pc} (hT : ¬ isT pc) (h : PcPh s g pc)
+theorem PcPh.of_not_isT {s s' : BinX.State} {g g' : Ghost} {pc : Pc} (hT : ¬ isT pc) (h : PcPh s g pc)
     (hmono : g.ph = .post → g'.ph = .post) : PcPh s' g' pc := by
   cases pc <;> first | exact absurd trivial hT | exact fun ht => hmono (h ht)
 
-theorem PcPh.of_isT {s s' : State} {g : Ghost} {pc : Pc} (h : PcPh s g pc)
+theorem PcPh.of_isT {s s' : BinX.State} {g : Ghost} {pc : Pc} (h : PcPh s g pc)
     (hcells : ∀ lo hg, g.ph = .mid lo hg → s'.lowCell = s.lowCell ∧ s'.highCell = s.highCell) (hT : isT pc) :
     PcPh s' g pc := by
   cases pc <;> first | exact False.elim hT | exact h | skip
@@ -179,21 +168,21 @@ theorem PcPh.of_isT {s s' : State} {g : Ghost} {pc : Pc} (h : PcPh s g pc)
 
 /-- memory effects of threads other than the resizing one do not change the ghost state, nor the
 new cells before the forwarding -/
-def WStep (s s' : State) (g g' : Ghost) : Prop :=
+def WStep (s s' : BinX.State) (g g' : Ghost) : Prop :=
   g' = g ∧ ∀ lo hg, g.ph = .mid lo hg → s'.lowCell = s.lowCell ∧ s'.highCell = s.highCell
 
-theorem WStep.of_same {s s' : State} {g : Ghost} (hL : s'.lowCell = s.lowCell) (hH : s'.highCell = s.highCell) :
+theorem WStep.of_same {s s' : BinX.State} {g : Ghost} (hL : s'.lowCell = s.lowCell) (hH : s'.highCell = s.highCell) :
     WStep s s' g g := ⟨rfl, fun _ _ _ => ⟨hL, hH⟩⟩
 
-theorem WStep.of_active {s s' : State} {g : Ghost} {id : CellId} (act : Active g id) : WStep s s' g g :=
+theorem WStep.of_active {s s' : BinX.State} {g : Ghost} {id : CellId} (act : Active g id) : WStep s s' g g :=
   ⟨rfl, fun lo hg hp => absurd hp (act.ne_mid lo hg)⟩
 
 theorem pinv_step {s s' : State} {g g' : Ghost} {t : Nat} {l l' : Local} (I : Inv s g)
-    (hl : s.threads[t]? = some l) (m : MemStep s s' (vcell l) g g')
+    (hl : s.threads[t]? = some l) (m : MemStep (mem s) (mem s') (vcell l) g g')
     (hthr : s'.threads = s.threads.set t l')
     (hres : s'.resizing = s.resizing ∨ (s'.resizing = true ∧ s.resizing = false))
-    (hlT : isT l.pc ∨ WStep s s' g g')
-    (hself : PcPh s' g' l'.pc)
+    (hlT : isT l.pc ∨ WStep (mem s) (mem s') g g')
+    (hself : PcPh (mem s') g' l'.pc)
     (hT : isT l'.pc → isT l.pc ∨ s.resizing = false)
     (hresz : isT l'.pc → s'.resizing = true)
     (hmid : ∀ lo hg, g'.ph = .mid lo hg → (isMidPc l.pc ∨ g.ph ≠ g'.ph) → isMidPc l'.pc) : PInv s' g' := by
@@ -256,12 +245,12 @@ theorem pinv_step {s s' : State} {g g' : Ghost} {t : Nat} {l l' : Local} (I : In
 /-! ## `LInv` -/
 
 theorem linv_step {s s' : State} {g g' : Ghost} {t : Nat} {l l' : Local} (I : Inv s g)
-    (hl : s.threads[t]? = some l) (m : MemStep s s' (vcell l) g g')
+    (hl : s.threads[t]? = some l) (m : MemStep (mem s) (mem s') (vcell l) g g')
     (hthr : s'.threads = s.threads.set t l')
     (hlock : ∀ (t1 : Nat) (l1 : Local) (h1 : Nat), t1 ≠ t → s.threads[t1]? = some l1 → Holds l1.pc h1 →
-      (nodeAt s'.heap h1).lock = (nodeAt s.heap h1).lock)
-    (hselfH : ∀ h, Holds l'.pc h → h < s'.heap.length ∧ (nodeAt s'.heap h).lock = some t)
-    (hselfV : ∀ id h, vcell l' = some (id, h) → getCell s' id = .node h ∧ Holds l'.pc h) : LInv s' := by
+      (BinX.nodeAt (mem s').heap h1).lock = (BinX.nodeAt (mem s).heap h1).lock)
+    (hselfH : ∀ h, Holds l'.pc h → h < (mem s').heap.length ∧ (BinX.nodeAt (mem s').heap h).lock = some t)
+    (hselfV : ∀ id h, vcell l' = some (id, h) → BinX.getCell (mem s') id = .node h ∧ Holds l'.pc h) : LInv s' := by
   have L := I.lock
   have hlen := m.len_le I.heap
   refine ⟨?_, ?_⟩
@@ -276,58 +265,29 @@ theorem linv_step {s s' : State} {g g' : Ghost} {t : Nat} {l l' : Local} (I : In
     rcases get_set hl1 with ⟨rfl, rfl⟩ | ⟨hne, hl1⟩
     · exact hselfV id h1 hv
     · obtain ⟨h2, h3⟩ := L.validated t1 l1 id h1 hl1 hv
-      obtain ⟨hc, -, -⟩ := m.frame I hl hne hl1 hv
+      obtain ⟨hc, -, -⟩ := I.frame hl m hne hl1 hv
       exact ⟨by rw [hc]; exact h2, h3⟩
-
-/-- the lock words of the nodes held by other threads do not change -/
-theorem lock_frame {s s' : State} {g g' : Ghost} {t : Nat} {l : Local} (I : Inv s g)
-    (m : MemStep s s' (vcell l) g g')
-    (hx : ∀ i x, s'.heap = s.heap.modify i (fun m => { m with lock := x }) → i < s.heap.length →
-      (nodeAt s.heap i).lock = none ∨ (nodeAt s.heap i).lock = some t) :
-    ∀ (t1 : Nat) (l1 : Local) (h1 : Nat), t1 ≠ t → s.threads[t1]? = some l1 → Holds l1.pc h1 →
-      (nodeAt s'.heap h1).lock = (nodeAt s.heap h1).lock := by
-  intro t1 l1 h1 hne hl1 hh
-  obtain ⟨hlt, hmine⟩ := I.lock.lockHeld t1 l1 h1 hl1 hh
-  rcases m.locks I.heap with h | ⟨i, x, h⟩
-  · exact h h1 hlt
-  · rw [h, nodeAt_modify]
-    split
-    · rename_i hc
-      obtain ⟨rfl, _⟩ := hc
-      rcases hx i x h hlt with h2 | h2
-      · rw [hmine] at h2; cases h2
-      · rw [hmine] at h2; cases h2; exact absurd rfl hne
-    · rfl
 
 /-! ## `WInv` -/
 
-theorem Walk.congr {heap heap' : List NodeS} {C : List Nat} {key : Nat} {pred cur : Option Nat}
-    (w : Walk heap C key pred cur) (hkey : ∀ j ∈ C, (nodeAt heap' j).key = (nodeAt heap j).key) :
-    Walk heap' C key pred cur := by
-  obtain ⟨l1, l2, hch, hcur, hpred, hkeys⟩ := w
-  refine ⟨l1, l2, hch, hcur, hpred, ?_⟩
-  intro j hj
-  rw [hkey j (by rw [hch]; exact List.mem_append_left _ hj)]
-  exact hkeys j hj
-
-theorem WalkOK.congr {s s' : State} {p : Pending} {pc : Pc} (w : WalkOK s p pc)
-    (hf : ∀ tab, tabOf pc = some tab → cellOf s' tab p.key = cellOf s tab p.key ∧
-      chainH s'.heap (cellOf s tab p.key) = chainH s.heap (cellOf s tab p.key) ∧
-      ∀ j ∈ chainH s.heap (cellOf s tab p.key), (nodeAt s'.heap j).key = (nodeAt s.heap j).key ∧
-        (nodeAt s'.heap j).next = (nodeAt s.heap j).next) : WalkOK s' p pc := by
+theorem WalkOK.congr {s s' : BinX.State} {p : Pending} {pc : Pc} (w : WalkOK s p pc)
+    (hf : ∀ tab, tabOf pc = some tab → BinX.cellOf s' (cT tab) p.key = BinX.cellOf s (cT tab) p.key ∧
+      BinX.chainH s'.heap (BinX.cellOf s (cT tab) p.key) = BinX.chainH s.heap (BinX.cellOf s (cT tab) p.key) ∧
+      ∀ j ∈ BinX.chainH s.heap (BinX.cellOf s (cT tab) p.key), (BinX.nodeAt s'.heap j).key = (BinX.nodeAt s.heap j).key ∧
+        (BinX.nodeAt s'.heap j).next = (BinX.nodeAt s.heap j).next) : WalkOK s' p pc := by
   cases pc with
   | wFind tab h pred cur =>
     obtain ⟨h1, h2, h3⟩ := hf tab rfl
-    show Walk s'.heap (chainH s'.heap (cellOf s' tab p.key)) p.key pred cur
+    show BinX.Walk s'.heap (BinX.chainH s'.heap (BinX.cellOf s' (cT tab) p.key)) p.key pred cur
     rw [h1, h2]
-    exact Walk.congr w (fun j hj => (h3 j hj).1)
+    exact BinX.Walk.congr w (fun j hj => (h3 j hj).1)
   | wStore tab h pred hit hnext =>
     obtain ⟨h1, h2, h3⟩ := hf tab rfl
     obtain ⟨w1, w2⟩ := w
     refine ⟨?_, ?_⟩
-    · show Walk s'.heap (chainH s'.heap (cellOf s' tab p.key)) p.key pred hit
+    · show BinX.Walk s'.heap (BinX.chainH s'.heap (BinX.cellOf s' (cT tab) p.key)) p.key pred hit
       rw [h1, h2]
-      exact Walk.congr w1 (fun j hj => (h3 j hj).1)
+      exact BinX.Walk.congr w1 (fun j hj => (h3 j hj).1)
     · intro i hi
       subst hi
       obtain ⟨e1, e2⟩ := h3 i w1.cur_mem
@@ -335,9 +295,9 @@ theorem WalkOK.congr {s s' : State} {p : Pending} {pc : Pc} (w : WalkOK s p pc)
   | _ => trivial
 
 theorem winv_step {s s' : State} {g g' : Ghost} {t : Nat} {l l' : Local} (I : Inv s g)
-    (hl : s.threads[t]? = some l) (m : MemStep s s' (vcell l) g g')
+    (hl : s.threads[t]? = some l) (m : MemStep (mem s) (mem s') (vcell l) g g')
     (hthr : s'.threads = s.threads.set t l')
-    (hself : ∀ p, l'.call = some p → WalkOK s' p l'.pc) : WInv s' := by
+    (hself : ∀ p, l'.call = some p → WalkOK (mem s') p l'.pc) : WInv s' := by
   refine ⟨?_⟩
   intro t1 l1 p1 hl1 hc1
   rw [hthr] at hl1
@@ -349,23 +309,23 @@ theorem winv_step {s s' : State} {g g' : Ghost} {t : Nat} {l l' : Local} (I : In
     subst hc1
     cases pc1 with
     | wFind tab h pred cur =>
-      obtain ⟨e1, e2, e3⟩ := m.frame I hl hne hl1 (vcell_wFind (l := ⟨.wFind tab h pred cur, some p1⟩) rfl rfl)
+      obtain ⟨e1, e2, e3⟩ := I.frame hl m hne hl1 (vcell_wFind (l := ⟨.wFind tab h pred cur, some p1⟩) rfl rfl)
       refine hold.congr ?_
       intro tab' htab
       cases htab
-      rw [cellOf_eq, cellOf_eq, e1]
-      unfold chId at e2 e3
+      rw [BinX.cellOf_eq, BinX.cellOf_eq, e1]
+      unfold BinX.chId at e2 e3
       rw [e1] at e2
       exact ⟨rfl, e2, e3⟩
     | wStore tab h pred hit hnext =>
-      obtain ⟨e1, e2, e3⟩ := m.frame I hl hne hl1 (vcell_wStore (l := ⟨.wStore tab h pred hit hnext, some p1⟩) rfl rfl)
+      obtain ⟨e1, e2, e3⟩ := I.frame hl m hne hl1 (vcell_wStore (l := ⟨.wStore tab h pred hit hnext, some p1⟩) rfl rfl)
       refine hold.congr ?_
       intro tab' htab
       cases htab
-      rw [cellOf_eq, cellOf_eq, e1]
-      unfold chId at e2 e3
+      rw [BinX.cellOf_eq, BinX.cellOf_eq, e1]
+      unfold BinX.chId at e2 e3
       rw [e1] at e2
       exact ⟨rfl, e2, e3⟩
     | _ => trivial
 
-end Flurry.Proto.BinX
+end Flurry.Proto.BinXC
